@@ -258,9 +258,9 @@ def model_check(tier: str, seed: int, rep: Report) -> list[dict[str, Any]]:
                  ("shapes5", {"seed": seed + 2, "heap": "8g"}), ("all3", {}), ("live3t", {})]
     jobs += [
         ("sim4t" if tier == "thorough" else "sim4", {"workers": 1, "seed": seed + 1}),
-        ("iso3", {"coverage": True}),
+        ("iso3", {}),
         ("all3q", {}),
-        ("live3", {}),
+        ("live3", {"coverage": True}),
         ("devM1", {}), ("devM2", {}), ("devM3", {}), ("devM4", {}),
         ("S16literal", {}),
     ]
@@ -268,10 +268,10 @@ def model_check(tier: str, seed: int, rep: Report) -> list[dict[str, Any]]:
     def one(job: tuple[str, dict[str, Any]]) -> Any:
         name, kw = job
         kw = dict(kw)
-        kw.setdefault("workers", 4)
+        kw.setdefault("workers", 3)
         return tlc.run_tlc("MC_SessionScan", f"MC_SessionScan_{name}.cfg", timeout=3000, **kw)
 
-    with ThreadPoolExecutor(max_workers=3 if tier == "quick" else 4) as ex:
+    with ThreadPoolExecutor(max_workers=5) as ex:
         results = list(ex.map(one, jobs))
     behaviours: list[dict[str, Any]] = []
     for (name, _), res in zip(jobs, results):
@@ -293,7 +293,7 @@ def model_check(tier: str, seed: int, rep: Report) -> list[dict[str, Any]]:
         if not res.ok:
             rep.violate(f"design/{res.violated}", {"where": "SessionScan design layer", "cfg": name},
                         {"cex": res.cex[-5:], "out": res.out[-1500:]})
-        if name == "iso3":
+        if name == "live3":
             want = {"DepthLoop", "StackLoop", "ProbeLoop", "RecoverStep", "Request", "Report"}
             taken = {a for a, (n, _d) in res.coverage.items() if n > 0}
             if not want <= taken:
@@ -354,12 +354,13 @@ def selftest(traces: list[dict[str, Any]], verdicts: dict[int, tuple[str, list[s
     base = None
     for i, t in enumerate(traces):
         if (verdicts[i][0] == "ok" and t["end"] == "done" and not t["skip"]
-                and any(len(r["st"]) >= 2 for r in t["rows"]) and len(t["result"]) < len(t["sessions"])):
+                and any(len(r["st"]) >= 2 and r["s"] in t["result"] for r in t["rows"])
+                and len(t["result"]) < len(t["sessions"])):
             base = t
             break
     if base is None:
         raise Machinery("no accepted scan with a multi-step stack and an unreported session for the self-test")
-    deep = next(r for r in base["rows"] if len(r["st"]) >= 2)
+    deep = next(r for r in base["rows"] if len(r["st"]) >= 2 and r["s"] in base["result"])
     missing = next(s for s in base["sessions"] if s not in base["result"])
 
     def cp() -> dict[str, Any]:
@@ -412,6 +413,8 @@ def run(tier: str, seed: int) -> Report:
         "termination: a scan is a hang when it exceeds the harness request cap (>= 2.5x the contract's G4 bound family) "
         "or the virtual horizon; G4 request bound = 8*(127+1)*(depth+2)*#walks(<depth) from the statement's vocabulary",
         "refusals change no state (ECU = directed graph); --reset and power-cycling are not covered",
+        "virtual time: asyncio timers are exact; the server loop's 10 s inactivity reset reads the same virtual clock "
+        "(gallia.services.uds.server.time patched in the harness process), so no wall-clock dependence",
     ]
     # ---- 1. model checking (threads) runs while the real scans run (processes)
     cases, info = build_cases(tier, seed)
